@@ -256,6 +256,8 @@ def check(F, run, tier):
     run.add(clm_accounting(F, S))
     run.add(audio_extent(F, S))
     run.add(format_preserved(F, S))
+    from ..rules_archive import extract_all_visits_every_member
+    run.add(extract_all_visits_every_member(F, S))
     from ..rules_archive import extraction_always_writes
     ef = F.fn(CLM + "::ExtractFile", nparams=2, pred=lambda f: "basic_string" not in f.key.split("(")[1].split(",")[0])
     run.add(extraction_always_writes(F, ef, CLM + "::ExtractFile"))
